@@ -541,7 +541,17 @@ def make_machine(stats, box):
             e = ''.join(parts)
             if n > 1 and data.draw(st.booleans()):
                 e = f'({e})'
+            empties = [k for k in syms if self.expands_to_nothing(k)]
+            if empties and data.draw(st.integers(min_value=0, max_value=3)) == 0:
+                # a symbol with an empty replacement text simply disappears from the line
+                e = f'{data.draw(st.sampled_from(empties))} {e}'
             return e
+
+        def expands_to_nothing(self, k):
+            try:
+                return self.model.expand(k).strip() == ''
+            except Reject:
+                return False
 
         def teardown(self):
             if self.model is not None:
